@@ -352,3 +352,77 @@ def rule_fill_covers_chunk(ctx):
                 ctx.holds("FILLCOVER", key, f.where(d[4]), "`%s` covers chunk_size * nt_size bytes" % render(d)[:60], nontrivial=True)
     ctx.floor("FILLCOVER", 2, n, "(fills of chunk cache pages)")
     return n
+
+
+def _linear(e, env=None):
+    """linear normal form of an integer expression: {rendered term: coefficient}, constants under ''"""
+    from .facts import kind, strip, render, is_int, int_val
+    out = {}
+
+    def add(t, c):
+        out[t] = out.get(t, 0) + c
+        if out[t] == 0:
+            del out[t]
+
+    def go(x, sign):
+        x = strip(x)
+        if kind(x) == "bin" and x[1] in ("+", "-"):
+            go(x[2], sign)
+            go(x[3], sign if x[1] == "+" else -sign)
+        elif is_int(x):
+            add("", sign * int_val(x))
+        elif kind(x) == "var" and env and x[1] in env:
+            for t, c in env[x[1]].items():
+                add(t, sign * c)
+        elif kind(x) == "bin" and x[1] == "*" and (is_int(x[2]) or is_int(x[3])):
+            k, o = (x[2], x[3]) if is_int(x[2]) else (x[3], x[2])
+            add(render(strip(o)), sign * int_val(k))
+        else:
+            add(render(x), sign)
+    go(e, 1)
+    return out
+
+
+def rule_chunk_header_length(ctx):
+    """HDRLEN (C02, C04): HMCcreate computes the total size of the chunked-element header in one switch over the element's kind and
+    the length it *stores* in the header (everything behind the tag and the length field itself) in a second switch.  Whatever the
+    kind, the stored length is the same function of the element's description: total minus the 6 bytes of tag and length field,
+    minus the nested compression header for compressed chunks.  With the first switch substituted into the second, all arms
+    must reduce to one and the same linear expression; an arm that stores 6 bytes more announces a header that runs past the
+    element."""
+    from .rules_conv import switch_arms, _find_switch
+    from .facts import kind, strip, walk, render, mem_field
+    from .codec import ast_exprs
+    prog = ctx.prog
+    f = prog.func("HMCcreate")
+    key = "HDRLEN:HMCcreate"
+    if f is None:
+        ctx.unrecognised("HDRLEN", key, "-", "HMCcreate not found")
+        return 0
+    tot = {}
+    stored = {}
+    for sw in _find_switch(f):
+        for labels, stmts, ft in switch_arms(sw):
+            for stt in stmts:
+                for e in ast_exprs(stt):
+                    for x in walk(e, True):
+                        if x[0] == "asg" and x[1] == "=":
+                            t = strip(x[2])
+                            if kind(t) == "var" and t[1] == "sp_tag_header_len":
+                                tot[tuple(labels)] = x[3]
+                            elif (mem_field(t) or (0, 0))[1] == "sp_tag_header_len":
+                                stored[tuple(labels)] = x[3]
+    if len(tot) < 2 or set(tot) != set(stored):
+        ctx.unrecognised("HDRLEN", key, f.where(), "the two header-length switches were not recognised (%d / %d arms)" % (len(tot), len(stored)))
+        return 0
+    forms = {}
+    for lab in tot:
+        env = {"sp_tag_header_len": _linear(tot[lab])}
+        forms[lab] = _linear(stored[lab], env)
+    vals = list(forms.values())
+    if all(v == vals[0] for v in vals):
+        ctx.holds("HDRLEN", key, f.where(), "every arm stores %s" % " + ".join("%s%s" % (("%d*" % c) if c != 1 and t else (str(c) if not t else ""), t) for t, c in sorted(vals[0].items()))[:120], nontrivial=True)
+    else:
+        ctx.violated("HDRLEN", key, f.where(), "the header length stored differs between the kinds of chunked element: %s — one kind announces a header of another size than the one written" % "; ".join(
+            "%s: const %+d" % ("/".join(str(l) for l in lab), forms[lab].get("", 0)) for lab in forms))
+    return 1
